@@ -13,15 +13,26 @@ where
 {
     let mut nodes = Vec::new();
     let mut edges = Vec::new();
+    // An undirected edge is yielded by the iterators of both of its
+    // endpoints (a self-loop twice by the same one). Emit it once: from the
+    // endpoint that is visited first, and a self-loop for its first half only.
+    let mut emitted = ahash::AHashSet::new();
 
     for (_, n) in g.iter() {
         nodes.push((n.key().clone(), n.value().clone()));
 
+        let mut loops = Vec::new();
         for Edge(u, v, e) in n.iter() {
-            edges.push((u.key().clone(), v.key().clone(), e));
+            if u == v {
+                loops.push((u.key().clone(), v.key().clone(), e));
+            } else if !emitted.contains(v.key()) {
+                edges.push((u.key().clone(), v.key().clone(), e));
+            }
         }
+        let half = loops.len() / 2;
+        edges.extend(loops.into_iter().take(half));
+        emitted.insert(n.key().clone());
     }
-
     (nodes, edges)
 }
 
